@@ -68,6 +68,14 @@ impl Monitor for Mon {
         let sends: Vec<(&Id, &Vec<u8>)> = rec.evs.iter().filter_map(|e| if let Ev::Send { to, bytes } = e { Some((to, bytes)) } else { None }).collect();
         // The handler's own log says which items it accepted, in order; the hook's CustomQueued events
         // must be exactly those (Foca queues what the handler accepted, nothing else).
+        // items on the wire are non-empty by construction of the format: whatever reaches the handler
+        // (from add_broadcast or from a datagram, well-formed or not) is never an empty slice
+        ensure!(
+            rec.handler_calls.iter().all(|c| !c.data.is_empty()),
+            "C16:handler-given-empty-item",
+            "the handler was handed an empty item during {}",
+            rec.call.kind()
+        );
         let accepted: Vec<&Vec<u8>> = rec.handler_calls.iter().filter(|c| c.outcome == Some(true)).map(|c| &c.data).collect();
         let queued: Vec<&Vec<u8>> = rec.hook.iter().filter_map(|e| if let HookEv::CustomQueued(b) = e { Some(b) } else { None }).collect();
         ensure!(
@@ -282,6 +290,7 @@ fn part() -> HistPart<Mon, impl Fn(&Setup) -> Mon + Sync> {
     p.timers_weight = 25;
     p.max_len = 110;
     p.raw_data = true; // add_broadcast with arbitrary bytes (empty, oversized, bad key)
+    p.empty_items = 2; // inbound datagrams ending in a zero-length item: never an item for the handler
     let mut sp = SetupProfile::default();
     sp.codecs = vec![CodecKind::Fix, CodecKind::Var];
     sp.packet = vec![(20, 60), (60, 140), (1400, 1401)];
@@ -319,7 +328,7 @@ pub fn run(ctx: &Ctx, report: &mut Report) -> EvidenceMeta {
     ctx.run_part(&part(), report);
     EvidenceMeta {
         level: "exploration",
-        rule: "proptest random single-instance histories with the harness's own BroadcastHandler (items key|version|payload; invalidation relation in {same key & higher version, same key, never, everything}; acceptance in {new version only, always, never}; recipient predicate = generated address subset; items with key 0xFF are handler errors): add_broadcast (valid, empty, oversized, arbitrary bytes), received datagrams carrying items, emissions of every kind at packet sizes 20..140 and 1400, broadcast() with 0..6 eligible members. Oracle: an accountant keyed by the handler's own logged decisions (cross-checked against the hook's queue log): every item in a datagram tail is a whole, byte-identical pending entry (identical entries: most transmissions left first), costs one transmission, disappears at 0; none on Announce/TurnUndead; none to members the predicate excludes; an item invalidated by a later accepted key never appears again; an omitted item did not fit (len+2 > free bytes at the end + bytes of included items with fewer transmissions left); custom_broadcast_backlog() and the real (bytes, remaining) multiset equal the accountant's; every datagram with items is also delivered to a peer with the same handler, which must see exactly those items, in order, once each, with sender = header.src; broadcast() sends only Broadcast datagrams, to <= num_indirect_probes distinct active eligible members, nothing with an empty backlog and nothing after the datagram that drained it. Non-trivial: an item invalidated while partly transmitted, a datagram whose update section and tail were both cut short, or broadcast() stopping early."
+        rule: "proptest random single-instance histories with the harness's own BroadcastHandler (items key|version|payload; invalidation relation in {same key & higher version, same key, never, everything}; acceptance in {new version only, always, never}; recipient predicate = generated address subset; items with key 0xFF are handler errors): add_broadcast (valid, empty, oversized, arbitrary bytes), received datagrams carrying items (some ending in a zero-length item, with handlers that would accept an empty slice), emissions of every kind at packet sizes 20..140 and 1400, broadcast() with 0..6 eligible members. Oracle: an accountant keyed by the handler's own logged decisions (cross-checked against the hook's queue log): every item in a datagram tail is a whole, byte-identical pending entry (identical entries: most transmissions left first), costs one transmission, disappears at 0; none on Announce/TurnUndead; none to members the predicate excludes; an item invalidated by a later accepted key never appears again; an omitted item did not fit (len+2 > free bytes at the end + bytes of included items with fewer transmissions left); custom_broadcast_backlog() and the real (bytes, remaining) multiset equal the accountant's; every datagram with items is also delivered to a peer with the same handler, which must see exactly those items, in order, once each, with sender = header.src; broadcast() sends only Broadcast datagrams, to <= num_indirect_probes distinct active eligible members, nothing with an empty backlog and nothing after the datagram that drained it. Non-trivial: an item invalidated while partly transmitted, a datagram whose update section and tail were both cut short, or broadcast() stopping early."
             .into(),
         assumptions: vec!["the handler under test is the harness's own (total, logs every call)".into()],
     }
